@@ -157,6 +157,9 @@ pub struct EndpointCfg {
     /// unreliable datagram extension (RFC 9221) enabled (off by default, as in the library)
     #[serde(default)]
     pub datagram: bool,
+    /// (server) answer every Initial that carries no token with a Retry packet
+    #[serde(default)]
+    pub retry: bool,
 }
 
 #[derive(Clone, Copy, Debug, Hash, PartialEq, Eq, Serialize, Deserialize)]
@@ -333,7 +336,7 @@ impl Default for ReaderScript {
 
 impl Default for EndpointCfg {
     fn default() -> Self {
-        EndpointCfg { limits: LimitsCfg::default(), cc: Cc::Cubic, mtu: (1228, 1228, 1500), cid: CidCfg::default(), datagram: false }
+        EndpointCfg { limits: LimitsCfg::default(), cc: Cc::Cubic, mtu: (1228, 1228, 1500), cid: CidCfg::default(), datagram: false, retry: false }
     }
 }
 
